@@ -489,10 +489,10 @@ func (e *Env) selector(x *ESel) Val {
 			for _, i := range path {
 				loc = c.fieldLoc(loc, i)
 			}
-			return Val{T: c.load(e.st, loc), GT: ft}
+			return Val{T: e.heapRef(c.load(e.st, loc), ft), GT: ft}
 		}
 		loc := c.fieldLoc(c.objLoc(v.T, p.Elem()), idx)
-		return Val{T: c.load(e.st, loc), GT: ft}
+		return Val{T: e.heapRef(c.load(e.st, loc), ft), GT: ft}
 	}
 	if st, ok := t.Underlying().(*types.Struct); ok {
 		idx, ft, path := findField(st, x.Name)
@@ -1102,6 +1102,21 @@ func (c *Ctx) initGhosts(st *State, ref Term, elem types.Type) {
 			c.set(st, key, tStore(c.get(st, key), ref, v.T))
 		}()
 	}
+}
+
+// heapRef: a reference (pointer, map, channel, slice) read from the heap by a contract
+// expression obeys the allocator invariant assumed at every load of the code itself: it
+// denotes an object allocated so far, and not one the function under verification has
+// allocated and not yet stored or passed anywhere.
+func (e *Env) heapRef(t Term, gt types.Type) Term {
+	if e.st == nil || e.st.alloc.S == "" {
+		return t
+	}
+	switch gt.Underlying().(type) {
+	case *types.Pointer, *types.Map, *types.Chan, *types.Slice:
+		e.c.assume(e.c.valueInv(t, gt, e.st), false)
+	}
+	return t
 }
 
 func (c *Ctx) ghostKey(sf *SpecFunc) string {
